@@ -371,12 +371,11 @@ theorem seek_sfm_rdwr (h : H) (s : Store) (hm : h.mode = .rw) (off : Int) :
 /-- A file written by a write-only session of the library (open SFM_WRITE on a new file, any valid write calls and
     header updates, close — the sessions of C04 / C07), opened SFM_RDWR: the open succeeds, the handle satisfies the
     read/write invariant, and it stands for exactly the frames written, read position 0, write position at the end.
-    Excluded: WAV float/double (such a file carries a PEAK chunk).  A WAV whose odd-length data is followed by the pad
-    byte is covered. -/
+    WAV float/double files (they carry a PEAK chunk) and WAVs whose odd-length data is followed by the pad byte are
+    covered; the only side condition is the 4 GiB RIFF limit. -/
 theorem written_file_opens_rdwr (ix fmt : Nat) (ch sr : Int) (h0 : H) (s0 : Store) (ops : List SOp)
     (ho : openHandle ix {} .w fmt ch sr = .ok h0 s0) (hsr : sr ≤ 0x7FFFFFFF) (hv : ∀ op ∈ ops, op.valid ch.toNat)
-    (hex : ∀ c, openCfg fmt ch sr = some c → c.hasPeak = false ∧
-      (c.container = .wav → (sessData c ops).length < 0xFFFFFFFF))
+    (hex : ∀ c, openCfg fmt ch sr = some c → c.container = .wav → (sessData c ops).length < 0xFFFFFFFF)
     (ix' pos : Nat) :
     ∃ c h' s', openCfg fmt ch sr = some c ∧
       openHandle ix' ⟨(closeHandle (runS (h0, s0) ops).1 (runS (h0, s0) ops).2).bytes, pos⟩ .rw fmt ch sr = .ok h' s' ∧
@@ -384,7 +383,7 @@ theorem written_file_opens_rdwr (ix fmt : Nat) (ch sr : Int) (h0 : H) (s0 : Stor
       absOf h' s' = { frames := groups c.bw (sessData c ops), rpos := 0, wpos := sessFrames ch.toNat ops } := by
   obtain ⟨c, hcfg, h1, h2, h3, i⟩ := session_inv ops ho hv
   obtain ⟨f1, f2, f3, f4, f5, f6⟩ := openCfg_facts hcfg
-  obtain ⟨hnp, hwav⟩ := hex c hcfg
+  have hwav := hex c hcfg
   have hdata : (c.init.run c ops).data = sessData c ops := by rw [run_data]; simp [Cfg.init]
   have hframes : (c.init.run c ops).frames = sessFrames ch.toNat ops := by rw [run_frames, f4]; simp [Cfg.init]
   have hdl := i.dlen
@@ -415,26 +414,21 @@ theorem written_file_opens_rdwr (ix fmt : Nat) (ch sr : Int) (h0 : H) (s0 : Stor
     exact ⟨c, h', s', hcfg, ho', hfin h' s' r⟩
   | wav =>
     have hg := hwav hcc
-    have hpk : (c.init.run c ops).peak = none := by
-      have := i.pkSome
-      rw [hnp] at this
-      cases hp : (c.init.run c ops).peak with
-      | none => rfl
-      | some ps => rw [hp] at this; simp at this
     obtain ⟨t2, ht2, hpad⟩ : ∃ t2, t2 ≤ 1 ∧ wavPad_ct c (c.init.run c ops) = zeros t2 := by
       unfold wavPad_ct
       split
       · exact ⟨1, Nat.le_refl _, rfl⟩
       · exact ⟨0, by omega, rfl⟩
     have himg : closedImage c (c.init.run c ops) =
-        wavHdr_ct c.big (codecOf c.fmtWord) c.enc.nbytes c.ch c.sr (sessFrames ch.toNat ops : Nat) none true
+        wavHdr_ct c.big (codecOf c.fmtWord) c.enc.nbytes c.ch c.sr (sessFrames ch.toNat ops : Nat)
+          (c.init.run c ops).peak true
           ((c.hdrLen + (sessData c ops).length + t2 : Nat) : Int) (sessData c ops).length ++ sessData c ops ++ zeros t2 := by
-      simp [closedImage, hcc, hdrBytes, hdata, hpad, hpk, hframes, zeros_length]
+      simp [closedImage, hcc, hdrBytes, hdata, hpad, hframes, zeros_length]
     rw [himg]
     rw [hcc] at f1 f6
     obtain ⟨h', s', ho', r⟩ := wav_image_open_rw c.big (codecOf c.fmtWord) c.sr c.ch c.enc (by rw [f2]; exact f6)
-      (by rw [f4]; omega) (by rw [f3]; omega) (sessData c ops) (sessFrames ch.toNat ops) hdl hg _ t2 ht2
-      ix' pos fmt ch sr (by rw [f1]; simp)
+      (by rw [f4]; omega) (by rw [f3]; omega) (sessData c ops) (sessFrames ch.toNat ops) hdl hg _
+      (c.init.run c ops).peak i.pkLen t2 ht2 ix' pos fmt ch sr (by rw [f1]; simp)
     exact ⟨c, h', s', hcfg, ho', hfin h' s' r⟩
 
 /-! ## the values view -/
